@@ -242,6 +242,28 @@ func handlerName(e ast.Expr) (string, bool) {
 	return "", false
 }
 
+// moduleQualifiedHandler: `alias.F` (or `alias.F()` returning the handler) where alias is an import of a package of this
+// module -> "alias.F"
+func (p *pkgInfo) moduleQualifiedHandler(e ast.Expr) (string, bool) {
+	if c, ok := e.(*ast.CallExpr); ok && len(c.Args) == 0 {
+		e = c.Fun
+	}
+	s, ok := e.(*ast.SelectorExpr)
+	if !ok {
+		return "", false
+	}
+	x, ok := s.X.(*ast.Ident)
+	if !ok {
+		return "", false
+	}
+	path, isImport := p.imports[x.Name]
+	mod := modulePath()
+	if !isImport || mod == "" || !(path == mod || strings.HasPrefix(path, mod+"/")) {
+		return "", false
+	}
+	return x.Name + "." + s.Sel.Name, true
+}
+
 // observedRoutes: registrations read off the REAL router by the probe (`routes observed METHOD PATTERN HANDLER ...`),
 // used only for registrations the static walk could not resolve (see routes()).
 var observedRoutes []route
@@ -460,7 +482,12 @@ func (p *pkgInfo) routes() (rts []route, opts [][2]string) {
 					rts = append(rts, r)
 					return
 				}
-				if h, ok := handlerName(hexpr); ok {
+				if q, ok := p.moduleQualifiedHandler(hexpr); ok {
+					// a handler declared in another package of this module (helpers.F): a normal row under its
+					// qualified name (the reads pass walks it under that name); it has no C16 model case, so
+					// route_table_ok still asks for one
+					r.handler = q
+				} else if h, ok := handlerName(hexpr); ok {
 					r.handler = h
 					if len(p.funcs[h]) == 0 {
 						r.unknown = "handler " + h + " is not a function of the package"
@@ -2236,6 +2263,22 @@ func classifyFeed(e ast.Expr, p *pkgInfo) (string, string) {
 		if t := exprText(x); strings.HasPrefix(t, "r.URL.") || strings.HasPrefix(t, "r.Host") {
 			return "request", t
 		}
+		// a field of a local value (a loop variable over the backend's reply, a request struct ...) carries what that value
+		// carries; configuration can enter only through viper reads (rows) and through state kept in the package's own
+		// objects, so only a selector rooted at a method receiver of the package (hc.<field> ...) stays unclassified
+		var root ast.Expr = x
+		for {
+			if se, ok := root.(*ast.SelectorExpr); ok {
+				root = se.X
+				continue
+			}
+			break
+		}
+		if id, ok := root.(*ast.Ident); ok {
+			if _, isImport := p.imports[id.Name]; !isImport && !receiverNames(p)[id.Name] {
+				return "var", exprText(e)
+			}
+		}
 		return "other", exprText(e)
 	case *ast.CallExpr:
 		if isConversion(x) {
@@ -2291,6 +2334,23 @@ func classifyFeed(e ast.Expr, p *pkgInfo) (string, string) {
 		return "var", exprText(e)
 	}
 	return "other", exprText(e)
+}
+
+// receiverNames: the identifiers used as method receivers in the package.
+func receiverNames(p *pkgInfo) map[string]bool {
+	out := map[string]bool{}
+	for _, ds := range p.funcs {
+		for _, d := range ds {
+			if d.Recv != nil {
+				for _, fl := range d.Recv.List {
+					for _, nm := range fl.Names {
+						out[nm.Name] = true
+					}
+				}
+			}
+		}
+	}
+	return out
 }
 
 var goBuiltins = map[string]bool{"len": true, "cap": true, "make": true, "new": true, "append": true, "copy": true, "min": true, "max": true}
@@ -2397,6 +2457,47 @@ func (w *walker) packagePass(handlers map[string]bool) {
 	}
 }
 
+// foreignHandler resolves a handler that is not declared in the walked package: "alias.F" through the import alias, a
+// bare "F" through the one package of the module imported by the walked package that declares a function F.
+func (w *walker) foreignHandler(h string) (*foreignPkg, []*ast.FuncDecl) {
+	name, paths := h, []string{}
+	if i := strings.LastIndex(h, "."); i > 0 {
+		name = h[i+1:]
+		if path, ok := w.p.imports[h[:i]]; ok {
+			paths = append(paths, path)
+		}
+	} else {
+		for _, path := range w.p.imports {
+			paths = append(paths, path)
+		}
+		sort.Strings(paths)
+	}
+	var found *foreignPkg
+	var fds []*ast.FuncDecl
+	for _, path := range paths {
+		if modPath == "" || !(path == modPath || strings.HasPrefix(path, modPath+"/")) {
+			continue
+		}
+		fp := w.loadForeign(path)
+		if fp == nil {
+			continue
+		}
+		var here []*ast.FuncDecl
+		for _, d := range fp.p.funcs[name] {
+			if d.Recv == nil {
+				here = append(here, d)
+			}
+		}
+		if len(here) > 0 {
+			if found != nil {
+				return nil, nil // ambiguous
+			}
+			found, fds = fp, here
+		}
+	}
+	return found, fds
+}
+
 func analyse(p *pkgInfo) (*walker, []*hinfo) {
 	rts, _ := p.routes()
 	seen := map[string]bool{}
@@ -2432,6 +2533,30 @@ func analyse(p *pkgInfo) (*walker, []*hinfo) {
 				w.unknownRow(fd, "handler "+h+" has no body in this package")
 			}
 			w.walkFunc(fd, nil)
+		}
+		if len(p.funcs[h]) == 0 {
+			// a handler that lives in another package of the module ("pkg.F", or a bare name the route table took from
+			// pkg.F): walked there, under this handler's name
+			if fp, fds := w.foreignHandler(h); len(fds) > 0 {
+				entered = true
+				saved := w.p
+				w.p = fp.p
+				for _, fd := range fds {
+					if fd.Body == nil {
+						entered = false
+					}
+					w.walkFunc(fd, nil)
+				}
+				w.p = saved
+				// the "not found" row added above is withdrawn: the handler was found after all
+				for i := len(w.rows) - 1; i >= 0; i-- {
+					if w.rows[i].handler == h && w.rows[i].kind == "unknown" && len(w.rows[i].pat) == 1 &&
+						strings.HasPrefix(w.rows[i].pat[0].s, "handler "+h+" not found") {
+						w.rows = append(w.rows[:i], w.rows[i+1:]...)
+						break
+					}
+				}
+			}
 		}
 		if entered {
 			// marker for the Coq obligation C18_all_route_handlers_walked: "reads nothing" and "never walked" differ
